@@ -3,13 +3,14 @@ use crate::header::name::Name;
 use crate::header::{ConstNamed, ExtendValues, HeaderParse};
 use crate::parse::ParseCtx;
 use crate::print::{AppendCtx, Print, PrintCtx};
-use crate::uri::params::{Params, CPS};
+use crate::uri::params::{Params, ParamsSpec, CPS};
 use anyhow::bail;
 use bytesstr::BytesStr;
 use internal::ws;
 use internal::IResult;
 use nom::bytes::complete::take_while1;
 use nom::combinator::map_res;
+use percent_encoding::percent_encode;
 use std::fmt;
 use std::fmt::Formatter;
 use std::str::FromStr;
@@ -56,7 +57,8 @@ impl fmt::Display for EventReasonValue {
             GiveUp => f.write_str("giveup"),
             NoResource => f.write_str("noresource"),
             Invariant => f.write_str("invariant"),
-            Other(o) => write!(f, "{}", o),
+            // read back through `Params`, which percent-decodes the value
+            Other(o) => write!(f, "{}", percent_encode(o.as_bytes(), CPS::ENCODE_SET())),
         }
     }
 }
